@@ -172,6 +172,9 @@ def load_shadow(extra=None):
                 d['norm'] = ghost.NormShim()
             for k, v in BUILTIN_SHIMS.items():
                 d[k] = v
+            if 'myokit' in d or 'sbml' in d:
+                from . import ghostsim
+                ghostsim.install(mod)
             if extra:
                 d.update(extra)
     _loaded[SHADOW] = pkg
